@@ -17,7 +17,12 @@ import (
 	"math/big"
 )
 
-type Val any // *big.Int | bool | string | sliceVal
+type Val any // *big.Int | bool | string | sliceVal | nilVal | objVal
+
+// nilVal is the untyped nil; objVal an opaque non-nil object (methods are given meaning by
+// the rule's ext callback).
+type nilVal struct{}
+type objVal struct{ id *big.Int }
 
 // sliceVal is a slice of values (read-only in the evaluated subset).
 type sliceVal []Val
@@ -146,6 +151,24 @@ func (e *evalEnv) stmt(s ast.Stmt) *returned {
 		}
 		return nil
 	case *ast.AssignStmt:
+		// `_ = expr` without calls has no effect
+		allBlank, hasCall := true, false
+		for _, l := range x.Lhs {
+			if id, ok := l.(*ast.Ident); !ok || id.Name != "_" {
+				allBlank = false
+			}
+		}
+		for _, r := range x.Rhs {
+			ast.Inspect(r, func(n ast.Node) bool {
+				if _, ok := n.(*ast.CallExpr); ok {
+					hasCall = true
+				}
+				return true
+			})
+		}
+		if allBlank && !hasCall {
+			return nil
+		}
 		if len(x.Lhs) != len(x.Rhs) {
 			undecided("multi-value assignment")
 		}
@@ -165,17 +188,43 @@ func (e *evalEnv) stmt(s ast.Stmt) *returned {
 			switch x.Tok {
 			case token.DEFINE, token.ASSIGN:
 				e.vars[o] = vals[i]
-			case token.ADD_ASSIGN, token.SUB_ASSIGN:
+			case token.ADD_ASSIGN, token.SUB_ASSIGN, token.MUL_ASSIGN, token.XOR_ASSIGN, token.OR_ASSIGN, token.AND_ASSIGN, token.SHL_ASSIGN, token.SHR_ASSIGN:
 				cur, ok1 := e.vars[o].(*big.Int)
 				d, ok2 := vals[i].(*big.Int)
 				if !ok1 || !ok2 {
 					undecided("arithmetic assignment on non-int")
 				}
-				if x.Tok == token.ADD_ASSIGN {
-					e.vars[o] = new(big.Int).Add(cur, d)
-				} else {
-					e.vars[o] = new(big.Int).Sub(cur, d)
+				var nv *big.Int
+				switch x.Tok {
+				case token.ADD_ASSIGN:
+					nv = new(big.Int).Add(cur, d)
+				case token.SUB_ASSIGN:
+					nv = new(big.Int).Sub(cur, d)
+				case token.MUL_ASSIGN:
+					nv = new(big.Int).Mul(cur, d)
+				case token.XOR_ASSIGN, token.OR_ASSIGN, token.AND_ASSIGN:
+					if cur.Sign() < 0 || d.Sign() < 0 {
+						undecided("bit operation on a negative value")
+					}
+					switch x.Tok {
+					case token.XOR_ASSIGN:
+						nv = new(big.Int).Xor(cur, d)
+					case token.OR_ASSIGN:
+						nv = new(big.Int).Or(cur, d)
+					default:
+						nv = new(big.Int).And(cur, d)
+					}
+				case token.SHL_ASSIGN, token.SHR_ASSIGN:
+					if d.Sign() < 0 || d.BitLen() > 10 {
+						undecided("shift count")
+					}
+					if x.Tok == token.SHL_ASSIGN {
+						nv = new(big.Int).Lsh(cur, uint(d.Int64()))
+					} else {
+						nv = new(big.Int).Rsh(cur, uint(d.Int64()))
+					}
 				}
+				e.vars[o] = wrapT(o.Type(), nv)
 			default:
 				undecided("assignment operator %s", x.Tok)
 			}
@@ -224,6 +273,33 @@ func (e *evalEnv) stmt(s ast.Stmt) *returned {
 		e.vars[o] = new(big.Int).Add(v, big.NewInt(d))
 		return nil
 	case *ast.RangeStmt:
+		if sl, isSlice := e.expr(x.X).(sliceVal); isSlice {
+			var ko, vo types.Object
+			if id, ok := x.Key.(*ast.Ident); ok && id.Name != "_" {
+				ko = e.f.Info.ObjectOf(id)
+			}
+			if id, ok := x.Value.(*ast.Ident); ok && id.Name != "_" {
+				vo = e.f.Info.ObjectOf(id)
+			}
+			for i, el := range sl {
+				if ko != nil {
+					e.vars[ko] = big.NewInt(int64(i))
+				}
+				if vo != nil {
+					e.vars[vo] = el
+				}
+				if r := e.block(x.Body.List); r != nil {
+					if r.ctl == "continue" {
+						continue
+					}
+					if r.ctl == "break" {
+						break
+					}
+					return r
+				}
+			}
+			return nil
+		}
 		// for i := range n  (integer range)
 		n, ok := e.expr(x.X).(*big.Int)
 		if !ok || x.Value != nil {
@@ -285,6 +361,42 @@ func (e *evalEnv) stmt(s ast.Stmt) *returned {
 	}
 	undecided("unsupported statement %T at %s", s, e.f.C.pos(s.Pos()))
 	return nil
+}
+
+// wrap reduces a non-negative result to the width of x's static type when that is a
+// fixed-size unsigned integer (uint64 arithmetic wraps; the representatives used by the
+// order-type rules never reach the width, so nothing changes for them).
+func (e *evalEnv) wrap(x ast.Expr, v *big.Int) *big.Int {
+	tv, ok := e.f.Info.Types[x]
+	if !ok {
+		return v
+	}
+	return wrapT(tv.Type, v)
+}
+
+func wrapT(t types.Type, v *big.Int) *big.Int {
+	if t == nil || v.Sign() < 0 {
+		return v
+	}
+	b, ok := t.Underlying().(*types.Basic)
+	if !ok {
+		return v
+	}
+	bits := 0
+	switch b.Kind() {
+	case types.Uint8:
+		bits = 8
+	case types.Uint16:
+		bits = 16
+	case types.Uint32:
+		bits = 32
+	case types.Uint64, types.Uint, types.Uintptr:
+		bits = 64
+	}
+	if bits == 0 || v.BitLen() <= bits {
+		return v
+	}
+	return new(big.Int).And(v, new(big.Int).Sub(new(big.Int).Lsh(big.NewInt(1), uint(bits)), big.NewInt(1)))
 }
 
 func (e *evalEnv) caseBody(cc *ast.CaseClause) *returned {
@@ -366,6 +478,9 @@ func (e *evalEnv) expr(x ast.Expr) Val {
 		if c, ok := o.(*types.Const); ok {
 			return constToVal(c.Val())
 		}
+		if _, ok := o.(*types.Nil); ok {
+			return nilVal{}
+		}
 		undecided("free variable %s", x.Name)
 	case *ast.SelectorExpr:
 		o := e.f.Info.ObjectOf(x.Sel)
@@ -423,6 +538,21 @@ func (e *evalEnv) expr(x ast.Expr) Val {
 			return r
 		}
 		l, r := e.expr(x.X), e.expr(x.Y)
+		{
+			_, ln := l.(nilVal)
+			_, rn := r.(nilVal)
+			_, lo := l.(objVal)
+			_, ro := r.(objVal)
+			if (ln || lo) && (rn || ro) && (ln || rn) {
+				same := ln && rn
+				switch x.Op {
+				case token.EQL:
+					return same
+				case token.NEQ:
+					return !same
+				}
+			}
+		}
 		if lb, ok := l.(bool); ok {
 			rb, ok2 := r.(bool)
 			if !ok2 {
@@ -466,11 +596,11 @@ func (e *evalEnv) expr(x ast.Expr) Val {
 		case token.NEQ:
 			return c != 0
 		case token.ADD:
-			return new(big.Int).Add(li, ri)
+			return e.wrap(x, new(big.Int).Add(li, ri))
 		case token.SUB:
 			return new(big.Int).Sub(li, ri)
 		case token.MUL:
-			return new(big.Int).Mul(li, ri)
+			return e.wrap(x, new(big.Int).Mul(li, ri))
 		case token.QUO:
 			if ri.Sign() == 0 {
 				undecided("division by zero")
@@ -490,7 +620,19 @@ func (e *evalEnv) expr(x ast.Expr) Val {
 			if ri.Sign() < 0 || ri.BitLen() > 10 {
 				undecided("shift count")
 			}
-			return new(big.Int).Lsh(li, uint(ri.Int64()))
+			return e.wrap(x, new(big.Int).Lsh(li, uint(ri.Int64())))
+		case token.XOR:
+			if li.Sign() >= 0 && ri.Sign() >= 0 {
+				return new(big.Int).Xor(li, ri)
+			}
+		case token.AND:
+			if li.Sign() >= 0 && ri.Sign() >= 0 {
+				return new(big.Int).And(li, ri)
+			}
+		case token.OR:
+			if li.Sign() >= 0 && ri.Sign() >= 0 {
+				return new(big.Int).Or(li, ri)
+			}
 		}
 		undecided("binary %s", x.Op)
 	case *ast.IndexExpr:
